@@ -195,7 +195,21 @@ class LexTables:
 def suffix_table(F, which):
     fn = "alpha::lexer::parse_integer_suffix" if which == "alpha" else "delta::lexer::parse_integer_suffix"
     b = F.body(fn)
-    m = hirq.find_match(b, min_arms=5)
+    try:
+        m = hirq.find_match(b, min_arms=5)
+    except AnchorMissing:
+        # the table may live in a helper that this function hands its argument to (one level): every spelling the helper knows and
+        # this function passes on is then an accepted suffix
+        helpers = [hirq.callee(c) for c in hirq.calls(b["hir"]) if (hirq.callee(c) or "").startswith(fn.rsplit("::", 1)[0] + "::") and F.has_body(hirq.callee(c))]
+        ms = []
+        for h in helpers:
+            try:
+                ms.append(hirq.find_match(F.body(h), min_arms=5))
+            except AnchorMissing:
+                pass
+        if len(ms) != 1:
+            raise
+        m = ms[0]
     tbl = {}
     for a in m["arms"]:
         for alt in hirq.pat_alts(a["pat"]):
